@@ -17,6 +17,13 @@ void vf_mix(uint64_t x);
 #else
 #define VF_OBS(x) ((void)0)
 #endif
+/* coverage goals (vacuity guard finer than the end-of-harness witness): with -DCOVERAGE the case is run under
+   `cbmc --cover cover`; every goal must be SATISFIED, i.e. the harness really reaches the situation it claims to cover */
+#if defined(COVERAGE) && !defined(VF_NATIVE)
+#define COVER(c) __CPROVER_cover(c)
+#else
+#define COVER(c) ((void)0)
+#endif
 unsigned char nondet_uchar(void); unsigned short nondet_ushort(void); unsigned nondet_uint(void); int nondet_int(void);
 uint64_t nondet_u64(void); signed char nondet_schar(void); float nondet_float(void); double nondet_double(void);
 _Bool nondet_bool(void);
